@@ -137,6 +137,21 @@ def check_module(res, c, T):
             return
         for path, x, y in snapshot.diff(S_new, build.norm_module(snapshot.snap_module(cl2, "synth"), "after"))[:3]:
             res.violation(f"C02:resave-stale:{T}:{snapshot.field_key(path)}", f"{T}: after in-place edits {applied[:4]} and a second save, {path}: object {x}, file {y}", desc)
+    # (d2) the Synth object made at the very beginning still wraps the module; the module has changed since (for a MetaModule
+    #      also the NUMBER of exposed controllers): writing through that old wrapper gives the module as it is now
+    try:
+        if T == "MetaModule" and m.user_defined_controllers < 96:
+            m.user_defined_controllers = m.user_defined_controllers + 1
+            m.update_user_defined_controllers()      # (the documented way to let the new controller take its target's type and value)
+            m.controller_midi_maps[f"user_defined_{m.user_defined_controllers}"].channel = 5
+        S_now = build.norm_module(snapshot.snap_module(m, "synth"), "before")
+        old_wrapper = workload.load(syn.read()).module
+        res.count("writes_through_the_first_wrapper")
+        for path, x, y in snapshot.diff(S_now, build.norm_module(snapshot.snap_module(old_wrapper, "synth"), "after"))[:3]:
+            res.violation(f"C02:old-wrapper-stale:{T}:{snapshot.field_key(path)}", f"{T}: written through the Synth object created before the edits: {path}: object {x}, file {y}", desc)
+    except Exception as e:
+        res.violation(f"C02:resave-raises:{T}:{workload.exc_key(e)}", f"{T}: writing through the first Synth wrapper after edits raised {e!r}", desc)
+        return
     # (e) the same on a LOADED instance (the clone): here embedded controller edits are plain edits (no MetaModule link)
     syn3 = api.Synth(cl)
     applied = c06.mutate_live(syn3, _random.Random(c.seed * 15485863 + c.index), 8, prefer=("/payload/project/", "/effect/"))
@@ -198,6 +213,42 @@ def failed_then_repaired(res, T, m, desc):
     compare(res, T, "clone-after-failed-save", good, build.norm_module(snapshot.snap_module(again, "synth"), "after"), desc)
 
 
+def big_payloads(res):
+    """Payloads of 1, 2, 3 MiB (exactly, and one byte around): Vorbis data and a sampler sample."""
+    import rv.api as api
+    MiB = 1 << 20
+    for size in (MiB, 2 * MiB, 2 * MiB - 1, 2 * MiB + 1, 3 * MiB):
+        for kind in ("vorbis", "sample"):
+            if kind == "sample" and size not in (2 * MiB, 3 * MiB):
+                continue
+            res.case(("big-payload", kind, size))
+            res.count("big_payload_roundtrips")
+            data = bytes((i * 31 + 7) & 0xFF for i in range(4096)) * (size // 4096) + bytes(size % 4096)
+            desc = {"big_payload": kind, "bytes": size}
+            try:
+                if kind == "vorbis":
+                    m = api.m.VorbisPlayer()
+                    m.data = data
+                    back = m.clone().data
+                    pp = api.Project()
+                    pp.attach_module(m)
+                    back2 = workload.load(pp.read()).modules[1].data
+                else:
+                    m = api.m.Sampler()
+                    s = m.Sample()
+                    s.data, s.format, s.channels = data, m.Format.int8, m.Channels.mono
+                    m.samples[3] = s
+                    back = m.clone().samples[3].data
+                    pp = api.Project()
+                    pp.attach_module(m)
+                    back2 = workload.load(pp.read()).modules[1].samples[3].data
+            except Exception as e:
+                res.violation(f"C02:big-payload-raises:{kind}:{workload.exc_key(e)}", f"{kind} payload of {size} bytes: save/load raised {e!r}", desc)
+                continue
+            if bytes(back) != data or bytes(back2) != data:
+                res.violation(f"C02:big-payload:{kind}", f"{kind} payload of {size} bytes comes back with {len(back)} / {len(back2)} bytes (clone / project) or different content", desc)
+
+
 def empty_synth(res):
     import rv.api as api
     from rv.errors import EmptySynthError
@@ -239,6 +290,8 @@ def run_shard(spec_, res):
             check_module(res, c, T)
     if spec_["shard"] == 0:
         empty_synth(res)
+    if spec_["shard"] == 1:
+        big_payloads(res)
         pass
     else:
         res.count("empty_synth_refusals", 0)
